@@ -59,6 +59,7 @@ fn probe_config() -> Config {
         lane_in_buf: 4096,
         lane_out_buf: 4096,
         jitter_per_mille: 0,
+        agent_jitter_per_mille: 0,
         keys: 5,
     }
 }
